@@ -764,12 +764,14 @@ Definition lib_model_ok (d : doc) : bool :=
   nodup_b (map dop_id (doc_ops d)).
 
 (* libopenapi (3.1 only) refuses an "infinite circular reference": a required property whose
-   schema mentions its own component, also through items / additionalProperties (longer cycles
-   are not generated) *)
+   schema is a reference to its own component or an array of such references (established by
+   experiment: maps and nested arrays pass; longer cycles are not generated) *)
 Definition self_required (nc : str * comp) : bool :=
   is_nil (k_allof (snd nc)) &&      (* not seen through an allOf wrapper *)
-  existsb (fun p => mem str_eqb (fst nc) (schema_refs (snd p)) && mem str_eqb (fst p) (k_required (snd nc)))
-          (k_props (snd nc)).
+  existsb (fun p => match snd p with
+                    | SRef n | SArr (SRef n) => str_eqb n (fst nc) && mem str_eqb (fst p) (k_required (snd nc))
+                    | _ => false
+                    end) (k_props (snd nc)).
 
 Definition lib_model_ok_v (v : dialect) (d : doc) : bool :=
   lib_model_ok d &&
